@@ -41,4 +41,9 @@ CLAIMS["C08"] = {
     "text": "Decides on every CFG path: the failure counter is reset only/always under check Ok and ping parsed Ok, incremented by one only/always/once under failed checks and failed pings, with no stray writer; last_update_time is written (with TimeSource::now) only/always under check Ok, Err(ResponseParser|InstallPlan) and ping success; after the final events the context, the app set and a commit follow in order before the check returns (and for every ping outcome); each context key has one typed writer and reader with paired units, zero stored as absent, Context::load awaited in build(); every storage write is followed by a commit before the next request, reboot or policy decision.",
     "note": "Crash atomicity and durability of commit are the Storage contract; the crash-point quantifier is reduced to write-group/commit pairing. Paths through a failed storage operation are exempt here and covered by C14.",
 }
+CLAIMS["C09"] = {
+    "technique": "sibling-agreement rules over guarded field writes (MIR dataflow + edge dominance), loop-exit census (SCC), outcome-edge dominance on the interprocedural CFG, provenance terms for wire and storage values",
+    "text": "Decides: Cohort::update_from_omaha writes each field from the same server field exactly under is_some() of that field; App::load restores each field from the same persisted field exactly when unset; the app loop of AppSetExt::update_from_omaha can only end by iterator exhaustion and updates exactly under id equality; the update runs only/always on check Ok and parsed ping; user counting comes from response.daystart; requests carry the app's cohort and ad = rd = its user-counting day; persist/load use json(PersistedApp{cohort,user_counting}) under the app id.",
+    "note": "History-level behaviour is reduced to these per-step rules plus C08-R3 (commit with the check's result).",
+}
 NOT_APPLICABLE = {}
